@@ -209,6 +209,11 @@ def snapshot(obj):
     snap = {}
     for path, a in arrays_of(obj):
         n = np.array(_arr(a))
+        # values, not dtypes, are judged: normalise the representation
+        if n.dtype.kind in "iubf":
+            n = n.astype(np.float64)
+        elif n.dtype.kind == "c":
+            n = n.astype(np.complex128)
         snap[path] = (n.shape, n.dtype.kind, n.tobytes())
     _scalars(obj, snap, "", set(), 0)
     return snap
@@ -223,7 +228,7 @@ def _scalars(obj, snap, path, seen, depth):
         if isinstance(obj, (list, tuple)):
             for i, v in enumerate(obj):
                 if isinstance(v, (int, float, complex, str, bool, np.integer, np.floating)):
-                    snap["%s[%d]" % (path, i)] = ("scalar", repr(v))
+                    snap["%s[%d]" % (path, i)] = ("scalar", _srepr(v))
                 else:
                     _scalars(v, snap, "%s[%d]" % (path, i), seen, depth + 1)
         return
@@ -231,12 +236,21 @@ def _scalars(obj, snap, path, seen, depth):
         v = d[k]
         if k == "prev_layer":
             continue
-        if isinstance(v, (int, float, complex, str, bool, np.integer, np.floating)) or v is None:
-            snap[path + "." + k] = ("scalar", repr(v))
+        if isinstance(v, (int, float, complex, str, bool, np.integer, np.floating, np.complexfloating)) or v is None:
+            snap[path + "." + k] = ("scalar", _srepr(v))
         elif isinstance(v, (np.ndarray,)):
             continue
         else:
             _scalars(v, snap, path + "." + k, seen, depth + 1)
+
+
+def _srepr(v):
+    if isinstance(v, (bool, str)) or v is None:
+        return repr(v)
+    try:
+        return repr(complex(v))
+    except Exception:
+        return repr(v)
 
 
 def snap_diff(a, b):
